@@ -39,8 +39,8 @@ def mk(case):
     elif kind == '32bit': feats += ['^64bit']
     elif kind == 'bigalloc': feats += ['bigalloc']; extra += ['-C', str(bs * cl)]
     if case['resize'] and 'resize_inode' not in ' '.join(feats): E.append('resize=%d' % (blocks * 4))
-    if ebpg >= 1024 or g < 6: extra += ['-N', str(max(64, g * 16))]
-    else: extra += ['-N', str(g * 8)]
+    if ebpg >= 1024 or g < 6: extra += ['-N', str(max(320, g * 16))]
+    else: extra += ['-N', str(max(320, g * 8))]
     if E: extra += ['-E', ','.join(E)]
     return dict(name='c20', fstype=fstype, bs=bs, blocks=blocks, features=feats, extra=extra), ebpg
 
@@ -50,6 +50,8 @@ def small_population(cfg, blobdir):
     c += ['write %s big' % big, 'write %s mid' % mid, 'write %s small' % small, 'mkdir d1', 'mkdir d1/d2', 'write %s d1/d2/deep' % mid, 'symlink sl /%s' % ('y' * 100), 'symlink fl abc']
     c += ['mkdir many', 'cd many'] + ['write /dev/null f%03d' % i for i in range(40)] + ['cd /', 'ln mid d1/hl', 'sif mid links_count 2']
     if cfg['fstype'] != 'ext2' or True: c += ['ea_set mid user.a v1']
+    # top-level directories are spread over the block groups by the allocator; with few inodes per group they reach the last groups, so every group's descriptors and tables matter for the restore
+    for i in range(90): c += ['mkdir s%02d' % i, 'write %s s%02d/f' % (small, i)]
     return c
 
 def body(case, env):
